@@ -211,6 +211,13 @@ class RecheckCheck:
                                    "alpha": alpha, "first": g["first"],
                                    "seed": seed, "tier": tier,
                                    "maxdmg": 1 if quick or n >= 4 else 2})
+        # S, long single files: block / piece counts beyond 2^8, 2^9, 2^10
+        for P in (2, 1024):
+            alpha = [513, 514, 515, 770, 1026, 1027, 2049, 2050, 2051]
+            for sh in ("S1", "D1"):
+                gs.append({"scale": "S", "B": 2, "P": P, "shape": sh,
+                           "alpha": alpha, "first": None, "seed": seed,
+                           "tier": tier, "maxdmg": 1, "long": True})
         # R
         Ps = [32768] if quick else [16384, 32768, 65536]
         for P in Ps:
@@ -419,7 +426,8 @@ class RecheckCheck:
             w = {"scale": g["scale"], "B": g["B"], "P": g["P"],
                  "shape": g["shape"], "sizes": sizes}
             files = world.files_of(w, seed)
-            singles = damages_for(files, g["P"], g["scale"], None)
+            singles = damages_for(files, g["P"],
+                                  "R" if g.get("long") else g["scale"], None)
             dmg_sets = [()] + [(d,) for d in singles]
             n = len(sizes)
             budget = {1: 2 * g["P"] + 1, 2: 2 * g["P"] + 2,
@@ -436,7 +444,7 @@ class RecheckCheck:
                     res.violation(sig, case, detail)
                 continue
             # S: confirm each disagreement at R before reporting it
-            small = world.nfiles(g["shape"]) <= 2
+            small = world.nfiles(g["shape"]) <= 2 and not g.get("long")
             todo = []
             for sig, case, detail in found:
                 if confirmed.get(sig, 0) >= 2:
@@ -445,7 +453,7 @@ class RecheckCheck:
                 confirmed[sig] = confirmed.get(sig, 0) + 1
                 todo.append((sig, case))
             rw = e1.world_to_real(w)
-            if max(rw["sizes"]) > (1 << 21):
+            if max(rw["sizes"]) > (1 << 25):
                 continue
             for sig, case in todo:
                 rd = tuple(map_damage_to_real(tuple(d), g["B"])
